@@ -265,7 +265,9 @@ def spec_reduce(func, m, pos, case):
                 mm = m.view("int64").astype("float64")
                 mm[np.isnat(m)] = np.nan
                 r = getattr(np, func)(mm)
-                return r
+                if r != r:
+                    return np.array("NaT", dtype=m.dtype)[()]
+                return np.array(int(np.trunc(r)), dtype="int64").view(m.dtype)[()]
             if m.dtype.kind in "Mm":
                 # numpy: max/min propagate NaT; nanmax/nanmin skip it
                 if func in ("nanmax", "nanmin"):
@@ -327,6 +329,10 @@ def expected_dtype(func, in_dtype, dtype=None, fill_value=None):
         base = np.dtype("float64")
     else:  # min max first last and nan-variants: input dtype
         base = in_dtype
+    if in_dtype.kind == "b" and dtype is None and func in ("min", "max", "nanmin", "nanmax", "first", "last", "nanfirst", "nanlast"):
+        fv = dec_scalar(fill_value)
+        if fill_value is None or fv in (0, 1, False, True):
+            return np.dtype(bool)  # input dtype; False/True hold 0/1
     if fill_value is not None and base.kind not in "Mm":
         base = np.result_type(base, dec_scalar(fill_value))
     return base
@@ -424,6 +430,11 @@ def oracle(case):
                     out[idx] = None
                     dontcare[idx] = True
                     continue
+            if func in ARG_FUNCS and len(red_sorted) > 1:
+                # an index "along the reduced axis" is only defined for a single reduced axis
+                out[idx] = None
+                dontcare[idx] = True
+                continue
             if func in ("argmax", "argmin") and nvalid < m.size:
                 out[idx] = None
                 dontcare[idx] = True
